@@ -117,6 +117,7 @@ type boundsCtx struct {
 	depth   int
 	at      *ssa.BasicBlock
 	inGuard bool
+	paramDepth int
 }
 
 func (c *Ctx) newBounds(fn *ssa.Function) *boundsCtx {
@@ -193,6 +194,45 @@ func (bc *boundsCtx) rangeOf0(v ssa.Value, seen map[ssa.Value]bool) ival {
 		return tr
 	}
 	switch n := v.(type) {
+	case *ssa.Parameter:
+		// an integer parameter of an unexported module function: the hull of what its call sites pass
+		// (each argument's interval at its own call site); any call through a function value, or an
+		// exported function, leaves the type's range
+		if b := basicOf(n.Type()); b == nil || b.Info()&types.IsInteger == 0 || bc.paramDepth > 2 {
+			return tr
+		}
+		fn := n.Parent()
+		if fn == nil || fn.Object() == nil || fn.Object().Exported() || fnPkgPath(fn) != modPath || bc.c.addressTaken(fn) {
+			return tr
+		}
+		idx := -1
+		for i, p := range fn.Params {
+			if p == n {
+				idx = i
+			}
+		}
+		var out ival
+		sites := 0
+		for _, g := range bc.c.moduleFuncs() {
+			for _, ci := range allCalls(g) {
+				if ci.Common().StaticCallee() != fn || idx >= len(ci.Common().Args) {
+					continue
+				}
+				sub := bc.c.newBounds(g)
+				sub.paramDepth = bc.paramDepth + 1
+				r := sub.rangeAt(ci.Common().Args[idx], ci.Block())
+				if sites == 0 {
+					out = r
+				} else {
+					out = join(out, r)
+				}
+				sites++
+			}
+		}
+		if sites == 0 {
+			return tr
+		}
+		return meet(out, tr)
 	case *ssa.Const:
 		if n.Value == nil {
 			return top()
@@ -521,19 +561,21 @@ func samePathLoad(a, b ssa.Value) bool {
 	if !ok || al.Referrers() == nil || strings.Count(pa, "@0x") != 1 {
 		return false
 	}
-	stores := 0
+	// every store to this very path must come before both loads on every path and must not be
+	// repeatable after them (not in a loop with them); the cell's address may be returned but is not
+	// handed to anything that could write through it
+	var stores []*ssa.Store
 	var walk func(v ssa.Value) bool
 	walk = func(v ssa.Value) bool {
 		for _, ref := range *v.Referrers() {
 			switch u := ref.(type) {
 			case *ssa.Store:
 				if u.Addr == v {
-					stores++
-					if u.Block() != al.Parent().Blocks[0] {
-						return false
+					if pathOf(u.Addr) == pa || v == ssa.Value(al) {
+						stores = append(stores, u)
 					}
 				} else {
-					return false // the address escapes
+					return false // the address escapes into memory
 				}
 			case *ssa.FieldAddr:
 				if !walk(u) {
@@ -543,14 +585,41 @@ func samePathLoad(a, b ssa.Value) bool {
 				if !walk(u) {
 					return false
 				}
-			case *ssa.UnOp, *ssa.DebugRef:
+			case *ssa.UnOp, *ssa.DebugRef, *ssa.Return:
 			default:
 				return false
 			}
 		}
 		return true
 	}
-	return walk(al) && stores == 1
+	if !walk(al) || len(stores) == 0 {
+		return false
+	}
+	reach := func(from, to *ssa.BasicBlock) bool {
+		seen := map[*ssa.BasicBlock]bool{}
+		q := append([]*ssa.BasicBlock(nil), from.Succs...)
+		for len(q) > 0 {
+			b := q[0]
+			q = q[1:]
+			if seen[b] {
+				continue
+			}
+			seen[b] = true
+			if b == to {
+				return true
+			}
+			q = append(q, b.Succs...)
+		}
+		return false
+	}
+	for _, st := range stores {
+		for _, ld := range []*ssa.UnOp{la, lb} {
+			if !instrDominates(st, ld) || reach(ld.Block(), st.Block()) {
+				return false
+			}
+		}
+	}
+	return true
 }
 
 // fieldKey identifies a struct field of a named struct type.
